@@ -168,6 +168,18 @@ func judge(cs *caseSpec, wire []byte, calls []int, closed bool) *verdict {
 			}
 		}
 		key := classify(e, problem, wireChunked, got, stray)
+		if (problem == "no-response" || problem == "incomplete") && key == problem && cs.truncated() && cs.Reqs[i].Trunc == "" {
+			// a complete request whose handler ran, followed (not necessarily directly) by a request the peer
+			// never completed before closing its sending side: the response must still reach the wire
+			later := false
+			for j := i + 1; j < len(calls); j++ {
+				later = later || (cs.Reqs[j].Trunc == "" && (exps[j].lenient() || exps[j].sizeLost()))
+			}
+			if !later {
+				key = "buffered-response-lost-at-peer-eof"
+				what += fmt.Sprintf("; the connection ends with a truncated request (%s) and the peer's EOF", cs.Reqs[nreq-1].Trunc)
+			}
+		}
 		if (problem == "no-response" || problem == "incomplete") && key == problem {
 			// did a later program abort the connection while this response was still (partly) buffered?
 			for j := i + 1; j < len(calls); j++ {
@@ -185,6 +197,10 @@ func judge(cs *caseSpec, wire []byte, calls []int, closed bool) *verdict {
 	endJustified := false   // a mis-sized / hand-conflicted stream aborted the connection
 	for i := 0; i < nreq; i++ {
 		e := exps[i]
+		if cs.Reqs[i].Trunc != "" {
+			// the truncated follower is owed nothing; what the server may still write is judged after the loop
+			break
+		}
 		if i >= len(calls) {
 			// the server stopped before this request
 			if !closeAnnounced && !endJustified {
@@ -505,6 +521,8 @@ func judge(cs *caseSpec, wire []byte, calls []int, closed bool) *verdict {
 		next := wire[off:]
 		if len(next) > 0 {
 			switch {
+			case !closeAnnounced && i+1 < nreq && cs.Reqs[i+1].Trunc != "":
+				// last complete request: the server goes on reading the truncated follower; see after the loop
 			case closeAnnounced || i == len(calls)-1:
 				what := fmt.Sprintf("%d byte(s) %s after the last response of the connection (which ends at offset %d)", len(next), mon.Short(next, 60), off)
 				fail(i, e, "stray", what, nil, next)
@@ -520,6 +538,49 @@ func judge(cs *caseSpec, wire []byte, calls []int, closed bool) *verdict {
 				off += len(stray)
 			}
 		}
+	}
+	if len(v.viol) == 0 && cs.truncated() && !closeAnnounced && !endJustified && off <= len(wire) {
+		// Whatever follows the responses to the complete requests concerns the truncated follower: an interim
+		// 100 Continue, an error response, or (StreamRequestBody: the handler runs on a complete head) the
+		// handler's response. Only well-formedness is judged here.
+		v.ev("truncated_follower_endings")
+		tail := wire[off:]
+		if len(tail) > 0 {
+			msgs, _ := h1.ParseResponses(tail, methods[nreq-1:])
+			finals := 0
+			end := 0
+			for _, tm := range msgs {
+				if tm.Fatal != "" || tm.HasAny(badFlags) {
+					// the handler's response to a request whose body never came may itself be cut short when the
+					// program streams; only a malformed HEAD is judged
+					if tm.HeadEnd == 0 || tm.HasAny([]string{h1.FBareLF, h1.FBareCR, h1.FNoColon, h1.FBadFieldName, h1.FBadVersion, h1.FNulOrCtl, h1.FCLandTE}) {
+						v.viol = append(v.viol, violation{nreq - 1, "truncated-follower-malformed-response", fmt.Sprintf("after the responses to the complete requests the server wrote %s (fatal=%q flags=%v); follower: %s", mon.Short(tail, 200), tm.Fatal, tm.FlagList(), cs.describe()[nreq-1])})
+						return v
+					}
+					v.ev("truncated_follower_response_cut_short")
+					end = len(tail)
+					break
+				}
+				if tm.Status/100 == 1 {
+					v.ev("truncated_follower_interim_1xx")
+				} else {
+					finals++
+					if tm.Status >= 400 {
+						v.ev("truncated_follower_error_response")
+					} else {
+						v.ev("truncated_follower_handler_response")
+					}
+				}
+				end = tm.End
+			}
+			if finals > 1 || end != len(tail) {
+				v.viol = append(v.viol, violation{nreq - 1, "truncated-follower-extra-bytes", fmt.Sprintf("%d final responses / %d unexplained bytes after the responses to the complete requests: %s", finals, len(tail)-end, mon.Short(tail, 200))})
+				return v
+			}
+		} else {
+			v.ev("truncated_follower_silent_close")
+		}
+		off = len(wire)
 	}
 	if len(v.viol) == 0 && off != len(wire) {
 		v.viol = append(v.viol, violation{len(calls) - 1, "stray", fmt.Sprintf("%d unexplained trailing byte(s): %s", len(wire)-off, mon.Short(wire[off:], 80))})
